@@ -256,8 +256,20 @@ def run(ctx):
         is_list = any(isinstance(x, ast.comprehension) for x in ast.walk(n.ast) if True) and \
             any(c is y for comp in ast.walk(n.ast) if isinstance(comp, (ast.ListComp, ast.GeneratorExp)) for y in ast.walk(comp))
         if not is_list:
-            g = v.guard_for(n, lambda t: mentions(t, "list"))
-            is_list = g is not None and g[1] is True
+            def implies_list(t, label):
+                """Taking edge `label` of test t establishes isinstance(<version>, list)."""
+                if isinstance(t, ast.UnaryOp) and isinstance(t.op, ast.Not):
+                    return implies_list(t.operand, not label)
+                if isinstance(t, ast.BoolOp) and isinstance(t.op, ast.And):
+                    return label is True and any(implies_list(x, True) for x in t.values)
+                if isinstance(t, ast.BoolOp):
+                    return label is False and False
+                return label is True and isinstance(t, ast.Call) and call_name(t) == "isinstance" and "list" in norm(t)
+            is_list = False
+            for cnd in v.conds(lambda t: mentions(t, "list")):
+                for lab in (True, False):
+                    if implies_list(cnd.ast, lab) and v.edge_guards(cnd, lab, n):
+                        is_list = True
         if is_list:
             list_loads += 1
             ok = bool(parse_nodes) and any(v.dominates(p, n) for p in parse_nodes) and \
